@@ -133,7 +133,7 @@ func c17AddCase(out *emit.Out, scenario string, in c17Input) {
 		}
 		out.Add(emit.Case{Scenario: scenario, Trivial: len(in.Frags) < 2, Input: in,
 			Observed: map[string]interface{}{"msgs": len(msgs), "err": fmt.Sprint(err), "pending": pend, "pending_bytes": pbytes},
-			Coq: fmt.Sprintf("RecvCase [%s] %d%%nat [%s] %d %d%%nat %d%%nat", strings.Join(fs, ";\n   "), in.Calls, strings.Join(ms, ";"), errCode(err), pend, pbytes)})
+			Coq:      fmt.Sprintf("RecvCase [%s] %d%%nat [%s] %d %d%%nat %d%%nat", strings.Join(fs, ";\n   "), in.Calls, strings.Join(ms, ";"), errCode(err), pend, pbytes)})
 	case "send":
 		pc := tk.NewSinkPC()
 		tr, err := dtlcp.VerifWriteHandshake(pc, pc.Remote, &dtlcp.Config{PMTU: in.PMTU}, in.Type, uint16(in.Seq), in.Body)
@@ -159,7 +159,7 @@ func c17AddCase(out *emit.Out, scenario string, in c17Input) {
 		}
 		out.Add(emit.Case{Scenario: scenario, Trivial: len(pc.Out) < 2, Input: in,
 			Observed: map[string]interface{}{"datagrams": len(pc.Out), "max_len": maxLen, "err": fmt.Sprint(err), "unparsed": bad},
-			Coq: fmt.Sprintf("SendCase (%d)%%Z %d %d %s [%s] %s %d %d%%nat", in.PMTU, in.Type, in.Seq, emit.Bytes(in.Body), strings.Join(fs, ";\n   "), emit.Bytes(tr), ec+bad*2, maxLen)})
+			Coq:      fmt.Sprintf("SendCase (%d)%%Z %d %d %s [%s] %s %d %d%%nat", in.PMTU, in.Type, in.Seq, emit.Bytes(in.Body), strings.Join(fs, ";\n   "), emit.Bytes(tr), ec+bad*2, maxLen)})
 	case "pair":
 		reg := tk.NewRegistry()
 		cc := tk.EPConfig{Suites: []uint16{in.Suite}, Ident: "cli", ServerName: "server.test", PMTU: in.CP}
@@ -176,7 +176,7 @@ func c17AddCase(out *emit.Out, scenario string, in c17Input) {
 		}
 		out.Add(emit.Case{Scenario: scenario, Trivial: false, Input: in, Direct: direct,
 			Observed: map[string]interface{}{"client": cr, "server": sr, "hung": hung, "virtual_ms": dp.Net.Now().Milliseconds()},
-			Coq: fmt.Sprintf("PairCase (%d)%%Z (%d)%%Z %s %s", in.CP, in.SP, emit.Bool(okk), emit.Bool(agree))})
+			Coq:      fmt.Sprintf("PairCase (%d)%%Z (%d)%%Z %s %s", in.CP, in.SP, emit.Bool(okk), emit.Bool(agree))})
 	}
 }
 
@@ -196,7 +196,7 @@ func c17Split(body []byte, typ byte, seq int, cuts []int) []c17Frag {
 func runC17(p params) error {
 	out := emit.New(p.out, "C17", "V.Corr.Run_C17", "case",
 		"fragment sets / fragment streams / sender splits / PMTU pairs; non-trivial = at least two fragments (or a pair run); distinct by Coq term")
-		if p.replay != "" {
+	if p.replay != "" {
 		b, err := os.ReadFile(p.replay)
 		if err != nil {
 			return err
